@@ -95,14 +95,18 @@ def family(u, J, s, t, extra=()):
 
 
 class Judge:
-    def __init__(self, u, col, origin):
+    def __init__(self, u, col, origin, scope_class=None):
         self.u, self.col, self.origin = u, col, origin
+        self.scope_class = scope_class
         self.sem = rm.RM(u.table, 'sem')
         self.syn = rm.RM(u.table, 'syn', implicit_top=False)
         self.spec = u.spec()
 
     def case_of(self, s, t, what):
-        return {'universe': self.spec, 'S': s, 'T': t, 'what': what}
+        case = {'universe': self.spec, 'S': s, 'T': t, 'what': what}
+        if self.scope_class is not None:
+            case['scope_class'] = self.scope_class
+        return case
 
     def pair(self, s, t, irs, irt, prim=False, check_assignable=True):
         col = self.col
@@ -340,10 +344,18 @@ def pair_cases(draw, lang):
     u = draw(tg.universes(lang))
     R = rm.RM(u.table)
     scope = {}
-    if draw(st.integers(0, 3)) == 0:
-        # type variables in scope (function / class type parameters)
+    scope_class = None
+    mode = draw(st.integers(0, 5))
+    if mode == 0:
+        # a type variable in scope (function type parameter)
         b = draw(tg.types(u, R, depth=1, proj=False))
         scope['Z'] = ('v', 'Z', b if (b is not None and not rm.is_proj(b) and draw(st.booleans())) else None)
+    elif mode in (1, 2) and u.generics():
+        # inside the body of a generic class: its own type parameters are in scope (the generator types fields and
+        # locals of class C<H, G> with C<H, H>, D<G, H>, ...)
+        scope_class = draw(st.sampled_from(u.generics()))
+        for pn, pv, pb in u.table.cls[scope_class]['params']:
+            scope[pn] = ('v', pn, pb)
     prims = bool(u.primitives) and draw(st.integers(0, 4)) == 0
     pairs = []
     for _ in range(draw(st.integers(1, 6))):
@@ -359,16 +371,20 @@ def pair_cases(draw, lang):
             ts.append(('k', draw(st.sampled_from(u.generics()))))
         for t in ts:
             pairs.append((s, t))
-    return u, scope, pairs
+    return u, scope_class, pairs
 
 
 def random_part(spec, col, n):
     lang = spec['lang']
 
     def one(case):
-        u, scope, pairs = case
-        J = Judge(u, col, 'random')
+        u, scope_class, pairs = case
+        J = Judge(u, col, 'random', scope_class)
         env = {}
+        if scope_class is not None:
+            env = {p.name: p for p in u.classes[scope_class].type_parameters}
+            col.feature('universes_with_class_scope')
+        enumerated = set()
         for s, t in pairs:
             try:
                 irs, irt = u.ir(s, env), u.ir(t, env)
@@ -378,6 +394,22 @@ def random_part(spec, col, n):
             prim = _has_prim(u, s) or _has_prim(u, t)
             J.pair(s, t, irs, irt, prim=prim)
             J.pair(t, s, irt, irs, prim=prim)
+            if s[0] == 'i' and s not in enumerated:
+                # targets the implementation itself names: every supertype it enumerates for S (the nominal path of
+                # is_subtype answers True for exactly these) must be a supertype of S in the reference relation
+                enumerated.add(s)
+                try:
+                    sups = sorted(irs.get_supertypes(), key=str)
+                except Exception as e:
+                    col.feature('impl_exception_get_supertypes:' + type(e).__name__)
+                    sups = []
+                for sup in sups:
+                    try:
+                        tt = rm.to_term(sup)
+                    except Exception:
+                        continue
+                    col.feature('impl_enumerated_supertypes')
+                    J.pair(s, tt, irs, sup, prim=_has_prim(u, s) or _has_prim(u, tt), check_assignable=False)
         col.feature('universes')
         if any(pv != 'inv' for k in u.order for pn, pv, pb in u.table.cls[k]['params']):
             col.feature('universes_with_decl_variance')
@@ -500,8 +532,11 @@ def replay(case, col):
         return
     boot.init_types_only()
     u = tg.universe_from_spec(case['universe'])
-    J = Judge(u, col, 'replay')
+    J = Judge(u, col, 'replay', case.get('scope_class'))
     s, t = tg.tuplify(case['S']), tg.tuplify(case['T'])
+    env = {}
+    if case.get('scope_class'):
+        env = {p.name: p for p in u.classes[case['scope_class']].type_parameters}
     if case.get('what') == 'transitive':
         m = tg.tuplify(case['M'])
         a, b, c = u.ir(s), u.ir(m), u.ir(t)
@@ -509,4 +544,4 @@ def replay(case, col):
             fam = family(u, J, s, t, extra=(m,))
             col.violation('C06/not-transitive/' + fam, {'S': rm.show(s), 'M': rm.show(m), 'T': rm.show(t)}, case)
         return
-    J.pair(s, t, u.ir(s), u.ir(t))
+    J.pair(s, t, u.ir(s, env), u.ir(t, env))
